@@ -394,4 +394,61 @@ theorem vsingl_decode_spec (b0 b1 b2 b3 : Nat) (h0 : b0 < 256) (h1 : b1 < 256) (
 
 example : VSINGL [0x0C, 0x44, 0x00, 0x80] 0 = .ok (.fin ⟨5013504, -15⟩, 4) := by rfl   -- 153
 
+/-! ## Output ranges (for ALL arguments, no hypothesis on the word) -/
+
+/-- **Codes 56, 66, 77, output range**: whatever Python int reaches the decoder (any width, either sign), the result is
+a value of the code: a signed char for 56, an unsigned byte for 66 and 77.  (A decoder that forgot the mask, or
+sign-extended from the wrong bit, leaves the range for some word.) -/
+theorem from56_66_77_range (w : Int) :
+    (-128 ≤ from56 w ∧ from56 w ≤ 127) ∧ (0 ≤ from66 w ∧ from66 w ≤ 255) ∧ (0 ≤ from77 w ∧ from77 w ≤ 255) := by
+  rw [from56_spec, from66_spec, from77_spec]
+  have hb : fld (low64 w) 0 8 < 256 := by unfold fld; omega
+  generalize fld (low64 w) 0 8 = x at hb
+  refine ⟨?_, by omega, by omega⟩
+  unfold twos
+  split <;> omega
+
+example : from56 0x80 = -128 ∧ from56 0x17F = 127 ∧ from66 (-1) = 255 := by decide
+
+/-- **UVARI, width and value range**: a successful decode consumed 1, 2 or 4 bytes and the value fits the 7, 14 or
+30 bits of that form — never more (so `UVARI` can never report a length that overruns a 2^30-byte record). -/
+theorem uvari_value_bound (bs : List Nat) (i v j : Nat) (wf : Bytes.wf bs) (h : UVARI bs i = .ok (v, j)) :
+    (j = i + 1 ∧ v < 2 ^ 7) ∨ (j = i + 2 ∧ v < 2 ^ 14) ∨ (j = i + 4 ∧ v < 2 ^ 30) := by
+  rw [uvari_spec bs i wf] at h
+  unfold uvariSpec at h
+  cases h0 : bs[i]? with
+  | none => simp [h0] at h
+  | some c =>
+    have hc := wf_get wf h0
+    simp only [h0] at h
+    by_cases h1 : c < 128
+    · simp only [h1, if_true] at h
+      cases h; exact .inl ⟨rfl, by omega⟩
+    · by_cases h2 : c < 192
+      · simp only [h1, h2, if_false, if_true] at h
+        cases h1' : bs[i + 1]? with
+        | none => simp [h1'] at h
+        | some b =>
+          have hb := wf_get wf h1'
+          simp only [h1'] at h
+          cases h; exact .inr (.inl ⟨rfl, by omega⟩)
+      · simp only [h1, h2, if_false] at h
+        cases h1' : bs[i + 1]? with
+        | none => simp [h1'] at h
+        | some b1 =>
+          cases h2' : bs[i + 2]? with
+          | none => simp [h1', h2'] at h
+          | some b2 =>
+            cases h3' : bs[i + 3]? with
+            | none => simp [h1', h2', h3'] at h
+            | some b3 =>
+              have hb1 := wf_get wf h1'
+              have hb2 := wf_get wf h2'
+              have hb3 := wf_get wf h3'
+              simp only [h1', h2', h3'] at h
+              cases h; exact .inr (.inr ⟨rfl, by omega⟩)
+
+example : UVARI [0xFF, 0xFF, 0xFF, 0xFF] 0 = .ok (2 ^ 30 - 1, 4) ∧ UVARI [0xBF, 0xFF] 0 = .ok (2 ^ 14 - 1, 2) :=
+  ⟨by rfl, by rfl⟩
+
 end TD.C07
